@@ -848,6 +848,9 @@ class Values:
                             if isinstance(t, ast.Name) and t.id == attr:
                                 return V(("sentinel", f"{info.name}.{attr}")) \
                                     if isinstance(stmt.value, ast.Call) else V(("const", attr))
+                    if isinstance(stmt, ast.AnnAssign) and stmt.value is not None and isinstance(stmt.target, ast.Name) \
+                            and stmt.target.id == attr:          # (``_marker: Any = object()``)
+                        return V(("sentinel", f"{info.name}.{attr}")) if isinstance(stmt.value, ast.Call) else V(("const", attr))
             return V(("unknown", f"{classqual}.{attr}"))
         if k in USERISH:
             return V(("usermeth", _src(a), attr))
@@ -1191,6 +1194,9 @@ class Values:
             return self._arg(unit, e, at, 1)  # (a selection of the elements of its second argument)
         if qual in ("itertools.cycle", "itertools.islice", "builtins.reversed", "builtins.iter") and e.args:
             return self._arg(unit, e, at, 0)  # (an iterator over elements of its first argument, the very objects)
+        if qual == "itertools.repeat" and e.args:
+            # (an iterator that hands out its first argument, the very object, again and again)
+            return V(*[("elems", a) for a in self._arg(unit, e, at, 0)]) if self._arg(unit, e, at, 0) else V(("stdlibval", qual))
         if qual == "functools.update_wrapper":
             return self._arg(unit, e, at, 0)  # (hands its first argument back)
         if qual.endswith("iscoroutinefunction"):
